@@ -21,6 +21,7 @@ Ops (tokens separated by one space):
   dec ReadBytes <opts> x<hex>        -> ok <consumed> x<message bytes>          (MessageHeader::read_bytes)
   msg <object id> <opts> x<hex>      -> noid | invalid 0 | ok <consumed> x<re-encoded> <byte_len> | err
                                         (SupportedMessage::decode_by_object_id)
+  deco <Variant|DataValue> <opts> <offset ticks> x<hex> -> as `dec`, decoded with DecodingOptions.client_offset
   srt <Struct> x<hex>                -> `sdec` under generous limits (bytes of a valid value)
 
 Value trees are in prefix notation, one token per atom (see `harness/src/enc.rs` for the grammar).
@@ -266,6 +267,29 @@ partial def shDI : DI → String
   | .nest f i => joinSp (shDIF true f ++ [shDI i])
 end
 
+/-! ### client offset (`DecodingOptions::client_offset`, used by clients that ignore clock skew)
+
+`DateTime::decode` returns `DateTime::from(ticks) - client_offset`; `DataValue::decode` zeroes the offset
+for the source timestamp only.  The model decodes with offset 0; the offset is applied here to the decoded
+value (every DateTime except DataValue source timestamps; ExtensionObject bodies stay bytes). -/
+
+def shiftScalar (off : Int) : Scalar → Scalar
+  | .dateTime t => .dateTime (t - off)
+  | s => s
+
+mutual
+partial def shiftV (off : Int) : V → V
+  | .empty => .empty
+  | .sc s => .sc (shiftScalar off s)
+  | .var v => .var (shiftV off v)
+  | .dv d => .dv (shiftDV off d)
+  | .di d => .di d
+  | .arr ty elems dims => .arr ty (elems.map (shiftV off)) dims
+partial def shiftDV (off : Int) : DV → DV
+  | .mk0 r => .mk0 { r with srvTs := r.srvTs.map (· - off) }
+  | .mk1 v r => .mk1 (shiftV off v) { r with srvTs := r.srvTs.map (· - off) }
+end
+
 def pOpts (s : String) : Option Opts :=
   if s = "default" then some Opts.default else if s = "minimal" then some Opts.minimal else
   match parseNatList? s with
@@ -362,6 +386,15 @@ partial def encStep (toks : List String) : String :=
       | .err => "err"
       | .fault .panic => "panic"
       | .fault _ => "abort"
+    | _, _, _ => "bad-op"
+  | ["deco", ty, opts, off, hex] =>
+    match pOpts opts, parseInt? off, hexToBytes hex with
+    | some o, some off, some b =>
+      if ty = "Variant" then
+        showDecT b (encV true) shV ((decV o drvCap true drvFuel 0 b).map (shiftV off))
+      else if ty = "DataValue" then
+        showDecT b (encDV true) shDV ((decDV o drvCap true drvFuel 0 b).map (shiftDV off))
+      else "bad-op"
     | _, _, _ => "bad-op"
   | ["msg", id, opts, hex] =>
     match id.toNat?, pOpts opts, hexToBytes hex with
